@@ -27,7 +27,7 @@ RULE = ("random operation histories (length 12-50) over {create environment / en
         "environment A, every other environment keeps its registry keys and class attributes, still rejects a query naming the new "
         "function with the same error, and keeps all its earlier results. Non-trivial: history contains >=2 environments and >=1 reuse of "
         "a compiled query on different or changed data; distinct by history."
-        " Histories also contain iterators abandoned half-way, live iterators that are finished several operations later, and match/search queries whose patterns are valid, invalid or non-strings, literal or taken from the data.")
+        " Histories also contain compiles that are rejected half-way through a literal, number, bracket or call (34 fixed strings and random damage to earlier queries), iterators abandoned half-way, live iterators that are finished several operations later, and match/search queries whose patterns are valid, invalid or non-strings, literal or taken from the data.")
 ASSUMPTIONS = ["solitary run of the same real code is the oracle (deliberately not the RFC model, so C14 is independent of semantic findings)",
                "registering on jsonpath_rfc9535.DEFAULT_ENV legitimately changes the module-level functions and is therefore not part of the histories"]
 DECIDING_MONITORS = ["M-call", "M-solitary"]
@@ -184,6 +184,12 @@ def gen_query(R, funcs):
         e = ("test", call) if FUNC_KINDS[funcs[name]][1] == L else ("cmp", "==", call, gen.comparable(2))
         return ("q", "$", (("child", (("filter", e),)),))
     return gen.query(root="$")
+
+
+REJECTED = ["$['ab\x01cd']", '$["xy\\uD800"]', "$[?@.a == 'pq\\z']", "$.a[?@.b == 'it\\'s\x02']", "$['a', 'b\\u12']", '$["a\\ud83d\\u0041"]', "$[?@.a == 'a' && @.b == 'c\x1f']",
+            "$.a['b', 'c", "$[?match(@.a, 'ab\\')]", "$[1, 02]", "$[1:2:3:4]", "$[?@.a == 1.]", "$[?@.a == 1e]", "$[9007199254740992]", "$[?@.a == -]", "$.a.b[", "$.a.b[?(@.c", "$[?count(@.a) ]x",
+            "$[?nosuch(@.a)]", "$[?length(@.*) == 1]", "$[?@.* == 1]", "$[?count(1) == 1]", "$[?length(@.a, @.b) == 1]", "$[?@.a == 1 &&]", "$[?!1]", "$..", "$.a..", "$ .a", "$.a b", "a",
+            "$[?@.a == 'x' || @['y\x00']]", "$['\\uDC00']", "$[?search(@, 'a\\u00')]", "$['k1', 'k2', 'k3\\q']"]
 
 
 def gen_doc(R):
@@ -386,6 +392,21 @@ class History:
             tgt = jp if env is None else env
             m = R.choice(["find", "finditer"])
             self.observe(("module." if env is None else "env.") + m, i, text, lambda: getattr(tgt, m)(text, doc), doc)
+            return
+        if r < 0.775:
+            # a query that is REJECTED (half-way through a literal, a number, a bracket, a call ...): whatever the lexer/parser
+            # had collected by then must not leak into the next compile on this or any other environment
+            i = R.randrange(len(self.envs))
+            env, cfg = self.envs[i]
+            text = R.choice(REJECTED)
+            if R.random() < 0.3 and self.compiled:
+                t0 = R.choice(self.compiled)[1]
+                k = R.randrange(len(t0) + 1)
+                text = t0[:k] + R.choice(["'ab\x01", '"cd\\uD800"', "'\\z'", "[", "(", "01", "?", "'zz"]) + t0[k:]
+            o = mon.observe(jp.compile if env is None else env.compile, text)
+            self.rec.feat("rejected-compile" if o[0] != "ok" else "rejected-compile:accepted-after-all")
+            if o[0] == "ok":
+                self.compiled.append((o[1], text, i))
             return
         if r < 0.80:
             gc.collect()
